@@ -30,7 +30,7 @@ ASSUMPTIONS = [
 ]
 MIN_NONTRIVIAL_FRACTION = 0.3
 RULE += " Added after the seeded rounds: " + 'A case may perform earlier renders on the same Ribosome first (including renders that fail half-way inside an include or a filter).'
-EXHAUSTIVE_NOTE = {"quick": "9 channels x 6 planted constructs = 54 part-B cases, complete", "thorough": "same table, complete"}
+EXHAUSTIVE_NOTE = {"quick": "9 channels x 6 planted constructs = 54 part-B cases, complete; strict-mode table: 11 locations of a plain variable (main, arms, loop body, includes to depth 3, filtered) x bound/unbound x strict on/off x with/without an earlier render = 88 cases", "thorough": "same table, complete"}
 
 VARS = ["a", "b", "c", "user", "topic"]
 LISTS = ["xs", "rows"]
@@ -198,10 +198,38 @@ def strategy(tier):
     return st.integers(0, 9).flatmap(lambda k: a if k < 6 else b)
 
 
+def _strict_table():
+    """where an unbound (or bound) plain variable sits x strict on/off x an earlier render or not: strict mode reports exactly the unbound ones, wherever they are"""
+    full = {"a": "A", "b": "B", "c": 3, "user": "Alice", "topic": "t", "xs": ["x1", "x2"], "rows": [{"name": "n", "qty": 1}]}
+    where = {
+        "main": ([["lit", "s "], ["var", "b"], ["lit", " e"]], {}),
+        "main-after-block": ([["if", "a", [["lit", "y"]], None], ["var", "b"]], {}),
+        "if-arm-taken": ([["if", "a", [["var", "b"]], [["lit", "n"]]]], {}),
+        "else-arm-taken": ([["if", "nope", [["lit", "y"]], [["var", "b"]]]], {}),
+        "loop-body": ([["each", "xs", [["item"], ["var", "b"]]]], {}),
+        "include-1": ([["lit", "s "], ["inc", "t1"]], {"t1": [["lit", "in1 "], ["var", "b"]]}),
+        "include-2": ([["inc", "t1"]], {"t1": [["lit", "in1 "], ["inc", "t2"]], "t2": [["var", "b"], ["lit", " in2"]]}),
+        "include-3": ([["inc", "t1"]], {"t1": [["inc", "t2"]], "t2": [["inc", "t3"]], "t3": [["lit", "deep "], ["var", "b"]]}),
+        "include-in-if": ([["if", "a", [["inc", "t1"]], None]], {"t1": [["var", "b"]]}),
+        "include-twice": ([["inc", "t1"], ["lit", " | "], ["inc", "t1"]], {"t1": [["var", "b"]]}),
+        "filtered": ([["flt", "b", "upper"]], {}),
+    }
+    for name, (main, tpls) in where.items():
+        for bound in (True, False):
+            ctx = dict(full)
+            if not bound:
+                del ctx["b"]
+            for strict in (True, False):
+                for pre in (False, True):
+                    yield {"main": main, "templates": tpls, "ctx": ctx, "strict": strict, "plant": None, "pre": pre}
+
+
 def enumerate_cases(tier):
     for ch in CHANNELS:
         for co in CONSTRUCTS:
             yield _plant_case(ch, co, [["lit", "start "]], [["lit", " end"]], {})
+    for case in _strict_table():
+        yield case
 
 
 # ---------------------------------------------------------------------------
